@@ -51,11 +51,13 @@ func getCKKS(c *engine.Chooser, s circ.CKKSSpec) *circ.CKKS {
 
 // a target is one scheme/parameter set/packing on which transformations of dimension n are evaluated
 type target struct {
-	name  string
-	n     int
-	lite  bool // structured sets only (parameter sets that exist for one code path)
-	dense bool // only the dense structured sets, core entry points, no secondary axes (large n)
-	leaf  func(c *engine.Chooser, scName string, cfg *scenarioCfg)
+	name   string
+	n      int
+	lite   bool  // structured sets only (parameter sets that exist for one code path)
+	ratios []int // nil: ratioCycle
+	margin bool  // lazy-accumulation margin target: dense bands, every level, high BSGS ratios
+	dense  bool  // only the dense structured sets, core entry points, no secondary axes (large n)
+	leaf   func(c *engine.Chooser, scName string, cfg *scenarioCfg)
 }
 
 var (
@@ -135,6 +137,14 @@ func targets(tier string) []target {
 	big7 := bgvTarget(circ.BGVSpec{LogN: 7, NQ: 3, QBits: 60, NP: 1, PBits: 61, T: 65537})
 	big7.lite, big7.dense = true, true
 	ts = append(ts, big7)
+	// Lazy-accumulation margins (QiOverF / PiOverF): a 60-bit q0 followed by 45-bit primes (the margin is governed by the
+	// LARGEST prime up to the level, not by the level's own prime), 128 slots, dense bands of 96..128 consecutive diagonals
+	// at ratios that give N1 = 16 and 32 baby steps per giant step, evaluated at every level, BSGS and not.
+	mb := bgvTarget(circ.BGVSpec{LogN: 8, NQ: 4, Q0Bits: 60, QBits: 45, NP: 1, PBits: 61, T: 65537})
+	mb.lite, mb.margin, mb.ratios = true, true, []int{-1, 3, 4, 5}
+	mc := ckksTarget(circ.CKKSSpec{LogN: 8, NQ: 4, Q0Bits: 60, QBits: 45, NP: 1, PBits: 61, LogScale: 45}, 7)
+	mc.lite, mc.margin, mc.ratios = true, true, []int{-1, 3, 4, 5}
+	ts = append(ts, mb, mc)
 	if tier == "thorough" {
 		// n = 32: structured sets only
 		b6 := bgvTarget(circ.BGVSpec{LogN: 6, NQ: 4, QBits: 45, NP: 2, PBits: 50, T: 65537})
@@ -159,7 +169,11 @@ func scenarios(tier string) []engine.Scenario {
 	maxSize := 3
 	for _, tg := range targets(tier) {
 		tg := tg
-		for _, ratio := range ratioCycle {
+		ratios := ratioCycle
+		if tg.ratios != nil {
+			ratios = tg.ratios
+		}
+		for _, ratio := range ratios {
 			ratio := ratio
 			var add func(family string, sets []diagSet, bound int, entries []int)
 			// families are split into scenarios of similar cost (the engine distributes scenarios, not leaves)
@@ -212,7 +226,17 @@ func scenarios(tier string) []engine.Scenario {
 				}
 				addSplit(fmt.Sprintf("subsets%d", size), toSets("sub", sets), bound, entries)
 			}
-			if tg.dense {
+			if tg.margin {
+				var all, band, bandNeg []int
+				for k := 0; k < tg.n; k++ {
+					all = append(all, k)
+					if k < 3*tg.n/4 {
+						band = append(band, k)
+						bandNeg = append(bandNeg, k-tg.n/4)
+					}
+				}
+				add("margin", []diagSet{{"all", all}, {"band", band}, {"band-neg", bandNeg}}, 1, []int{eEvaluateNew, eMany2})
+			} else if tg.dense {
 				var ds []diagSet
 				for _, d := range structuredSets(tg.n) {
 					if len(d.idx) >= tg.n/2-1 {
@@ -259,7 +283,7 @@ func main() {
 				"ltLevelQ=max", "ltLevelQ=max-1", "ltLevelQ=lowest", "levelP=max", "levelP=max-1",
 				"ctLevel=above-lt", "ctLevel=equal-lt", "ctLevel=below-lt", "ltScale=true", "ltScale=false", "ctScale=true", "ctScale=false",
 				"evaluator=fresh", "evaluator=reused", "evaluator=late-keys", "repeat=yes", "nDiags=3", "levelP=lowest3", "nDiags=1", "nDiags=2", "nDiags=all", "checked=sequential", "checked=many1", "checked=many2", "checked=many3",
-				"N1=1", "N1=2", "N1=4", "N1=8", "perm=all-of-4", "perm=family-8", "special=out-of-range-index", "special=empty-diagonal-set", "class=naive-only-diagonal-0", "class=EvaluateMany-after-giant-step", "many=no-earlier-giant-step"}
+				"N1=1", "N1=2", "N1=4", "N1=8", "N1=16", "N1=32", "perm=all-of-4", "perm=family-8", "special=out-of-range-index", "special=empty-diagonal-set", "class=naive-only-diagonal-0", "class=EvaluateMany-after-giant-step", "many=no-earlier-giant-step"}
 			for _, r := range ratioCycle {
 				e = append(e, fmt.Sprintf("ratio=%d", r))
 			}
